@@ -1,13 +1,60 @@
 """C13 - a stored fact is an independent copy of the asserted term."""
-from .. import dbgen, histcheck
+import gc
+from .. import dbgen, histcheck, real as R
+from ..common import Sym, sx
+import yldprolog.engine as E
 PROP = 'C13'
 
 
+def zigzag_retract(rnd, rep):
+    """a fact that a retract has just removed is still visited by an enumeration that started earlier
+    (logical update view): what that enumeration sees is a copy of the fact as it was stored, whatever the
+    suspended retract - or the caller, through the term the retract returned - has bound meanwhile"""
+    eng = R.RealEngine()
+    yp = eng.yp
+    eng.assert_fact('cz', [[Sym('a'), 'k']])
+    eng.assert_fact('cz', [[Sym('f'), 'g', [Sym('v'), 90]]])
+    eng.assert_fact('cz', [[Sym('f'), 'h', [Sym('v'), 91], [Sym('v'), 91]]])
+    X = yp.variable()
+    e = yp.query('cz', [X])
+    next(e)                                            # the enumeration is under way (first fact)
+    how = rnd.choice(['pattern', 'returned-term'])
+    keep = []
+    if how == 'pattern':
+        r = yp.query('retract', [yp.functor('cz', [yp.functor('g', [yp.atom('a')])])])
+        next(r)                                        # suspended at its answer
+        keep.append(r)
+    else:
+        Y = yp.variable()
+        r = yp.query('retract', [yp.functor('cz', [Y])])
+        next(r)
+        next(r)                                        # second fact: Y = g(_)
+        u = E.unify(Y, yp.functor('g', [yp.atom('a')]))
+        next(u)                                        # the caller instantiates what it got
+        keep += [r, u]
+    seen = []
+    for _ in e:
+        seen.append(sx(R.canon_terms([X])))
+    del keep, r, e
+    gc.collect()
+    rep.count('zigzag-retract')
+    want = ['((f "g" (v 0)))', '((f "h" (v 0) (v 0)))']
+    if seen != want:
+        rep.violation({'kind': 'an enumeration that started before a retract sees the retracted fact with the bindings of the retract',
+                       'how': how, 'seen': seen, 'expected': want})
+
+
+def history(rnd, rep):
+    if rnd.random() < 0.25:
+        zigzag_retract(rnd, rep)
+    return dbgen.c13_history(rnd)
+
+
 def run(tier):
-    histcheck.run(PROP, tier, lambda rnd, rep: dbgen.c13_history(rnd), 250, 8000,
+    histcheck.run(PROP, tier, history, 250, 8000,
                   rule='random clauses that bind variables before, after and through chains/structures around an assert of p(T) and then '
                        'use the fact (also while the asserting clause is still active), API asserts of non-ground terms, and bodies '
-                       'that use one fact twice; read back with all-variable and partially bound patterns; non-trivial = some query '
+                       'that use one fact twice; an enumeration resumed while a retract of one of its facts is suspended; read back with all-variable and partially bound patterns; non-trivial = some query '
                        'has an answer; distinct = distinct (operations, final contents)')
 
 
